@@ -179,6 +179,7 @@ func DecryptKey(keyjson []byte, auth string) (*Key, error) {
 	// Depending on the version try to parse one way or another
 	var (
 		keyBytes, keyId []byte
+		fileAddress     string
 		err             error
 	)
 	if version, ok := m["version"].(string); ok && version == "1" {
@@ -186,12 +187,14 @@ func DecryptKey(keyjson []byte, auth string) (*Key, error) {
 		if err := json.Unmarshal(keyjson, k); err != nil {
 			return nil, err
 		}
+		fileAddress = k.Address
 		keyBytes, keyId, err = decryptKeyV1(k, auth)
 	} else {
 		k := new(encryptedKeyJSONV3)
 		if err := json.Unmarshal(keyjson, k); err != nil {
 			return nil, err
 		}
+		fileAddress = k.Address
 		keyBytes, keyId, err = decryptKeyV3(k, auth)
 	}
 	// Handle any decryption errors and return the key
@@ -199,10 +202,20 @@ func DecryptKey(keyjson []byte, auth string) (*Key, error) {
 		return nil, err
 	}
 	key := crypto.ToECDSAUnsafe(keyBytes)
+	address := crypto.PubkeyToAddress(key.PubKey())
+	// The MAC authenticates the ciphertext only: the IV, the cipher and the
+	// version are not covered, so a damaged file can decrypt to another key
+	// without any error. If the file names its account, insist on that key.
+	if fileAddress != "" {
+		if !common.IsHexAddress(fileAddress) || common.HexToAddress(fileAddress) != address {
+			zeroKey(key)
+			return nil, fmt.Errorf("key file content mismatch: decrypted key has address %x, file says %q", address, fileAddress)
+		}
+	}
 
 	return &Key{
 		Id:         uuid.UUID(keyId),
-		Address:    crypto.PubkeyToAddress(key.PubKey()),
+		Address:    address,
 		PrivateKey: key,
 	}, nil
 }
